@@ -33,6 +33,8 @@ def apply_supp(report, s):
     k = s["k"]
     if k == "cat":
         report.suppress(s["cat"])
+    elif k == "catf":
+        report.suppress(s["cat"], fields=dict(FM[s["fld"]]))
     elif k == "catlabel":
         report.suppress(s["cat"], s["label"])
     elif k == "catlabelf":
@@ -177,7 +179,7 @@ def random_feedback(rng, frac=False):
 
 
 def random_supp(rng):
-    k = rng.choice(["cat", "catlabel", "catlabelf", "label", "labelf"])
+    k = rng.choice(["cat", "catlabel", "catlabelf", "label", "labelf", "catf"])
     return {"k": k, "cat": rng.choice(CATS[1:7]) if k.startswith("cat") else "-",
             "label": rng.choice(["a", "b", "c"]) if k != "cat" else "-",
             "fld": rng.choice(["f1", "f2", "f3", "k1", "j1", "k2"]) if k.endswith("f") else "-"}
